@@ -4,6 +4,7 @@ package main
 
 import (
 	"fmt"
+	"runtime"
 	"go/types"
 	"strings"
 
@@ -35,7 +36,9 @@ func catchUnit(u *UnitResult) {
 			u.Err = "CONTRACT-STALE: " + e.msg
 			u.Stale = true
 		default:
-			panic(r)
+			buf := make([]byte, 4096)
+			n := runtime.Stack(buf, false)
+			u.Err = fmt.Sprintf("internal error: %v\n%s", r, buf[:n])
 		}
 	}
 }
